@@ -4,7 +4,12 @@ use crate::vm::VMBinding;
 use crossbeam::deque::{Injector, Steal, Worker};
 use enum_map::Enum;
 use std::sync::atomic::{AtomicBool, Ordering};
+#[cfg(not(mmtk_verif))]
 use std::sync::{Arc, Mutex};
+#[cfg(mmtk_verif)]
+use crate::util::verif::sync::Mutex;
+#[cfg(mmtk_verif)]
+use std::sync::Arc;
 
 pub(super) struct BucketQueue<VM: VMBinding> {
     queue: Injector<Box<dyn GCWork<VM>>>,
